@@ -1,7 +1,7 @@
 (* API entries for the C05 / C13 / C20 models (see Extract/ApiCommon.v for the conventions). *)
 From Coq Require Import NArith ZArith List String.
 From BU Require Import Base.Exn Base.Val Base.Bytes Gen.Consts Gen.SerbipConsts Extract.ApiCommon.
-From BU Require Model.Base58 Model.Bip32Data Model.Bip32Ser Model.Slip32.
+From BU Require Model.Base58 Model.Bip32Data Model.Bip32Ser Model.Slip32 Model.WifCodec Model.Bip38.
 Import ListNotations.
 Open Scope string_scope.
 
@@ -75,6 +75,58 @@ Section Api.
       rmap (fun r => match r with (k, path, cc, p) => VL [VB k; VL (map VN path); VB cc; VBool p] end)
         (Slip32.slip32_deserialize o_bech_dec s (hpub, hpriv)) | _ => bad_call end)
   ].
+
+  (* ---- C13: secp256k1 points travel as [] / [x; y] *)
+  Definition pt := list N.
+  Definition v_pt (p : pt) : val := VL (map VN p).
+  Definition pt_of (v : val) : pt :=
+    match v with VL [VN x; VN y] => [x; y] | _ => [] end.
+  Definition k1_base : pt := pt_of (ask "ec_base" [VN 0]).
+  Definition k1_smul (k : N) (p : pt) : pt := pt_of (ask "ec_mul" [VN 0; VN k; v_pt p]).
+  Definition k1_add (p q : pt) : pt := pt_of (ask "ec_add" [VN 0; v_pt p; v_pt q]).
+  Definition k1_ser_c (p : pt) : list N := o_bytes ask "secp_ser_c" [v_pt p].
+  Definition k1_ser_u (p : pt) : list N := o_bytes ask "secp_ser_u" [v_pt p].
+  Definition k1_deser (b : list N) : option pt :=
+    match ask "secp_deser" [VB b] with VL [VN x; VN y] => Some [x; y] | _ => None end.
+  Definition o_p2pkh (p : pt) (c : bool) : list N := o_bytes ask "p2pkh_btc" [v_pt p; VBool c].
+  Definition o_utf8 (t : list N) : res (list N) :=
+    match ask "utf8_encode" [VB t] with
+    | VL [VN 0; VB b] => Ok b
+    | _ => Err UnicodeError
+    end.
+  Definition o_scrypt (pw salt : list N) (n r p dklen : N) : list N :=
+    o_bytes ask "scrypt" [VB pw; VB salt; VN n; VN r; VN p; VN dklen].
+  Definition o_aes_enc (k b : list N) : list N := o_bytes ask "aes256_ecb_enc" [VB k; VB b].
+  Definition o_aes_dec (k b : list N) : list N := o_bytes ask "aes256_ecb_dec" [VB k; VB b].
+  Definition vbool (v : N) : bool := negb (N.eqb v 0).
+  Definition v_keymode (r : list N * bool) : val := VL [VB (fst r); VBool (snd r)].
+  Definition lotseq_of (v : list val) : option (Z * Z) :=
+    match v with [VZ l; VZ q] => Some (l, q) | _ => None end.
+
+  Definition api_c13 : list api_entry := [
+  ("wif_encode", fun a => match a with [VB key; VB nv; VN c] =>
+      rb (WifCodec.wif_encode b58_alph_btc b58_radix b58_cklen sha256 key nv (vbool c)) | _ => bad_call end);
+  ("wif_decode", fun a => match a with [VB s; VB nv] =>
+      rmap v_keymode (WifCodec.wif_decode b58_alph_btc b58_radix b58_cklen sha256 s nv) | _ => bad_call end);
+  ("bip38_noec_encrypt", fun a => match a with [VB key; VB pass; VN c] =>
+      rb (Bip38.noec_encrypt b58_alph_btc b58_radix b58_cklen sha256 (o_nfc ask) o_utf8 o_scrypt o_aes_enc
+            pt k1_base k1_smul o_p2pkh key pass (vbool c)) | _ => bad_call end);
+  ("bip38_noec_decrypt", fun a => match a with [VB enc; VB pass] =>
+      rmap v_keymode (Bip38.noec_decrypt b58_alph_btc b58_radix b58_cklen sha256 (o_nfc ask) o_utf8 o_scrypt o_aes_dec
+            pt k1_base k1_smul o_p2pkh enc pass) | _ => bad_call end);
+  ("bip38_ec_intermediate", fun a => match a with [VB pass; VL ls; VB salt] =>
+      rb (Bip38.gen_intermediate b58_alph_btc b58_radix b58_cklen sha256 (o_nfc ask) o_utf8 o_scrypt
+            pt k1_base k1_smul k1_ser_c pass (lotseq_of ls) salt) | _ => bad_call end);
+  ("bip38_ec_gen_private_key", fun a => match a with [VB ip; VN c; VB seedb] =>
+      rb (Bip38.gen_private_key b58_alph_btc b58_radix b58_cklen sha256 o_scrypt o_aes_enc
+            pt k1_smul k1_ser_c k1_deser o_p2pkh ip (vbool c) seedb) | _ => bad_call end);
+  ("bip38_ec_decrypt", fun a => match a with [VB enc; VB pass] =>
+      rmap v_keymode (Bip38.ec_decrypt b58_alph_btc b58_radix b58_cklen sha256 (o_nfc ask) o_utf8 o_scrypt o_aes_dec
+            pt k1_base k1_smul k1_ser_c o_p2pkh enc pass) | _ => bad_call end);
+  ("bip38_ec_generate", fun a => match a with [VB pass; VN c; VL ls; VB salt; VB seedb] =>
+      rb (Bip38.generate_private_key_ec b58_alph_btc b58_radix b58_cklen sha256 (o_nfc ask) o_utf8 o_scrypt o_aes_enc
+            pt k1_base k1_smul k1_ser_c k1_deser o_p2pkh pass (vbool c) (lotseq_of ls) salt seedb) | _ => bad_call end)
+  ].
 End Api.
 
-Definition api (ask : string -> list val -> val) : list api_entry := api_c05 ask.
+Definition api (ask : string -> list val -> val) : list api_entry := api_c05 ask ++ api_c13 ask.
